@@ -263,6 +263,10 @@ class Sim:
             return
         # writes into a buffer through a place are not part of any analysed routine: give up on that buffer
         base = self.env.get(p["l"], UNK)
+        if base[0] == "box":
+            # `vec![a, b]`: the array is written into a fresh box, which then becomes the vector
+            self.env[p["l"]] = ("box", val)
+            return
         if base[0] in ("buf", "ref"):
             self.spoil(base[1], "element write into a buffer")
         elif all(proj_key(e) == "deref" for e in p["p"]) and base[0] == "rl":
@@ -515,6 +519,59 @@ class Sim:
                         a0[0][0][0] == "byte" and a1[0][0][0] == "byte" and a0[0][0][1] == a1[0][0][1] and a1[0][0][2] == a0[0][0][2] + 1:
                     return ("int", L(0, {("le16" if short == "from_le_bytes" else "be16", a0[0][0][1], a0[0][0][2]): 1}))
             return UNK
+        if short in ("to_be_bytes", "to_le_bytes") and args and args[0][0] == "int":
+            w = {"u8": 1, "u16": 2, "u32": 4, "u64": 8, "usize": 8}.get(n.split("<impl ")[-1].split(">")[0])
+            if w:
+                order = "be" if short == "to_be_bytes" else "le"
+                return ("bytes", [("int", L(0, {("eb", order, w, i_, args[0][1]): 1})) for i_ in range(w)])
+            return UNK
+        if n == "zvt_builder::encoding::Encoding::encode" and args:
+            ga = [ty_str(x) for x in (t.get("f") or {}).get("a", [])]
+            v = args[0]
+            if v[0] == "rl":
+                v = self.env.get(v[1], UNK)
+            w = {"u8": 1, "u16": 2, "u32": 4, "u64": 8}.get(ga[1]) if len(ga) > 1 else None
+            order = {"zvt_builder::encoding::Default": "le", "zvt_builder::encoding::BigEndian": "be"}.get(ga[0]) if ga else None
+            if v[0] == "int" and w and order:
+                return ("buf", self.new_obj([(("enc", order, w, v[1]), L(w))]))
+            return UNK
+        if n in ("alloc::boxed::box_new", "alloc::boxed::Box::<T>::new") and args:
+            return args[0]
+        if n.endswith("Box::<T>::new_uninit"):
+            return ("box", UNK)
+        if n.endswith("box_assume_init_into_vec_unsafe") and args and args[0][0] == "box":
+            v = args[0][1]
+            if v[0] == "bytes":
+                segs = self.bytes_segs(v)
+                return ("buf", self.new_obj(segs)) if segs is not None else UNK
+            return UNK
+        if n in ("alloc::slice::<impl [T]>::into_vec",) and args:
+            v = args[0]
+            if v[0] == "bytes":
+                segs = self.bytes_segs(v)
+                return ("buf", self.new_obj(segs)) if segs is not None else UNK
+            return v if v[0] == "buf" else UNK
+        if short in ("concat",) and args:
+            v = args[0]
+            if v[0] == "rl":
+                v = self.env.get(v[1], UNK)
+            if v[0] == "bytes" and all(x[0] == "buf" and not self.heap[x[1]]["unknown"] for x in v[1]):
+                segs = []
+                for x in v[1]:
+                    segs.extend(self.heap[x[1]]["segs"])
+                return ("buf", self.new_obj(segs))
+            return UNK
+        if n == "core::iter::traits::collect::Extend::extend" and len(args) == 2:
+            v, src = args
+            if v[0] == "ref" and src[0] in ("buf", "ref") and self.obj_len(v[1]) is not None:
+                sb = self.view_bounds(src)
+                segs = self.segs_between(*sb) if sb is not None else None
+                if segs is not None:
+                    self.heap[v[1]]["segs"].extend(segs)
+                    return ("tup", [])
+            if v[0] in ("ref", "buf"):
+                self.spoil(v[1], "extended with bytes that could not be followed")
+            return UNK
         if n == "core::ops::try_trait::Try::branch" and args:
             v = args[0]
             if v[0] == "adt" and v[1] in ("Ok", "Some"):
@@ -555,19 +612,21 @@ class Sim:
         return None
 
     def bytes_segs(self, v):
-        """segments for a small array of byte values (all bytes of one read, consecutive)"""
+        """segments for a small array of byte values: bytes of a read (consecutive ones merged), constants, the bytes of
+        an encoded integer, or single value bytes"""
         out = []
         for x in v[1]:
             if x[0] != "int":
                 return None
             items = list(x[1].t.items())
-            if not items and x[1].c == 0:
-                out.append((("zero",), L(1)))
+            if not items:
+                out.append((("zero",) if x[1].c == 0 else ("const", x[1].c), L(1)))
             elif len(items) == 1 and items[0][1] == 1 and x[1].c == 0 and items[0][0][0] == "byte":
                 out.append((("read", items[0][0][1], items[0][0][2]), L(1)))
+            elif len(items) == 1 and items[0][1] == 1 and x[1].c == 0 and items[0][0][0] == "eb":
+                out.append((("ebyte",) + tuple(items[0][0][1:]), L(1)))
             else:
-                return None
-        # merge consecutive bytes of the same read
+                out.append((("val", x[1]), L(1)))
         merged = []
         for kind, ln in out:
             if merged and kind[0] == "read" and merged[-1][0][0] == "read" and merged[-1][0][1] == kind[1] and \
@@ -577,7 +636,21 @@ class Sim:
                 merged[-1] = (merged[-1][0], L(merged[-1][1].c + 1))
             else:
                 merged.append((kind, ln))
-        return merged
+        # the w bytes of one encoded integer, in order: one segment
+        res, k = [], 0
+        while k < len(merged):
+            kind = merged[k][0]
+            if kind[0] == "ebyte" and kind[3] == 0:
+                order, w, _, key = kind[1:]
+                grp = merged[k:k + w]
+                if len(grp) == w and all(g[0][0] == "ebyte" and g[0][1:3] == (order, w) and g[0][3] == n_ and g[0][4] == key
+                                         for n_, g in enumerate(grp)):
+                    res.append((("enc", order, w, key), L(w)))
+                    k += w
+                    continue
+            res.append(merged[k])
+            k += 1
+        return res
 
     # ---------------------------------------------------------------- paths
     def run(self, path, stop_before_term_of=None):
